@@ -24,6 +24,7 @@ import Proofs.OpGuardSetBlock
 import Proofs.OpGuardB
 import Props.C01
 import Props.C12
+import Props.C11
 namespace PM.C04
 open PM
 
@@ -2665,5 +2666,27 @@ example : tinyS.unwind ([Step.replace 2 3 tinySl false].zip [tinyDoc]) tinyDoc' 
     · simp [Step.undoAligned, histNext, tinyDoc', Node.kids, tinySl, alignedAt, splitOk, isHigh, isLow,
         Slice.size, fsize, Node.size]
 end FamilyExample
+
+/-- **exact undo of a replace-around step the Fitter emitted**: the structural hypotheses of
+    `replaceAround_undo_partial` (`sl.wf`, `insert ≤ slice.size`, range and gap in order) are discharged
+    for every replace-around step `replace_step` answers with (C11 `fit_emits_wf`: schema guards, valid
+    document, well-formed request slice, the unplaced slice staying well-formed over the Fitter's run —
+    all decidable).  What remains assumed is what the undo theorem assumes of any step: normal forms and
+    that the three applications succeed.  (Payload validity — `openValid` of the emitted slice — is not
+    needed here and not yet proved for Fitter-emitted steps: C11, `fit_emits_valid_payload`.) -/
+theorem fitter_replaceAround_undo_partial (S : Schema) (hdet : PM.C11.detB S = true) (hfill : S.fillersOKB = true)
+    (hwrap : S.wrapOKB = true) (hlab : S.labelsOKB = true) (doc doc' doc'' : Node) (f t : Nat) (req : Slice)
+    (hv : C01.Valid S doc) (hattrs : S.nodeAttrsOK doc = true) (hreq : req.wf = true) (hft : f ≤ t)
+    (hrun : unplacedWfRun S doc f t req = true) (F T G1 G2 : Nat) (sl : Slice) (ins : Nat) (b : Bool)
+    (hemit : replaceStep S doc f t req = .ok (some (.replaceAround F T G1 G2 sl ins b)))
+    (inv : Step) (hn : fnorm doc.kids = true) (hsn : fnorm sl.content = true)
+    (h1 : S.apply (.replaceAround F T G1 G2 sl ins b) doc = .ok doc')
+    (hi : S.invert (.replaceAround F T G1 G2 sl ins b) doc = .ok inv)
+    (h2 : S.apply inv doc' = .ok doc'') : doc'' = doc := by
+  obtain ⟨_, hs⟩ := PM.C11.fit_emits_wf S hdet hfill hwrap hlab doc f t req hv hattrs hreq hft hrun _ hemit
+  have hsh := hs F T G1 G2 sl ins b rfl
+  simp only [aroundShape, Bool.and_eq_true, decide_eq_true_eq] at hsh
+  obtain ⟨⟨⟨⟨hwf, hins⟩, g1⟩, g2⟩, g3⟩ := hsh
+  exact replaceAround_undo_partial S doc doc' doc'' F T G1 G2 sl ins b inv hn hsn hwf hins ⟨g1, g2, g3⟩ h1 hi h2
 
 end PM.C04
